@@ -291,7 +291,7 @@ fn reference(c: &Case, dir: &Path) -> Verdict {
         Some("data") | Some("onnx_data") => Some(true),
         Some(e) if e.strip_prefix("onnx_data_").map(|d| !d.is_empty() && d.bytes().all(|b| b.is_ascii_digit())).unwrap_or(false) => Some(true),
         Some(e) if e.to_ascii_lowercase().contains("data") => None, // grey: "DATA", "database", ...
-        None if loc.to_ascii_lowercase().contains("data") => None, // grey: ".data", "data"
+        // no extension at all ("data", "dataset", ".data"): not "a recognised data extension"
         _ => Some(false),
     };
     if recognised == Some(false) {
